@@ -115,6 +115,9 @@ func cmdCheck(args []string) {
 			*timeout = 120 * time.Second
 		}
 	}
+	if *tier != "thorough" {
+		memoOpen(*verif) // the thorough tier re-discharges every obligation from scratch
+	}
 	t0 := time.Now()
 	run := &checkRun{prop: p, tier: *tier, seed: seed, timeout: *timeout, assumed: map[string]bool{}, inlined: map[string]bool{}, funcs: map[string]bool{}, insts: map[string]instRef{}, axioms: map[string]bool{}, externs: map[string]bool{}}
 	cfgs := p.Quick
@@ -501,6 +504,16 @@ func writeEvidence(run *checkRun, verif string, wall time.Duration, violations i
 			"obligations_by_kind":      kinds,
 			"discharged_by_backend":    backends,
 			"decided_by_flow_backend":  run.flowOK,
+			"verdicts_reused_from_memo": func() int {
+				n := 0
+				for k, v := range backends {
+					if strings.HasPrefix(k, "memo:") {
+						n += v
+					}
+				}
+				return n
+			}(),
+			"memo_note": "quick tier: a query identical (SHA-256 of its full structure up to variable renaming) to one discharged in an earlier run on this machine is not re-sent to the back ends (back end shown as memo:<original>); every obligation is still regenerated from /repo; the thorough tier ignores the memo",
 			"solver_time_s":            solverT,
 			"slowest_obligation_s":     maxT,
 			"per_obligation_timeout_s": run.timeout.Seconds(),
